@@ -649,6 +649,103 @@ pub fn scale_types() -> Vec<(String, Vec<Action>)> {
     v
 }
 
+/// counts at which 16-bit counters wrap (and one beyond); thorough adds the neighbours and multiples
+fn wrap_counts(quick: bool) -> Vec<usize> {
+    if quick {
+        vec![65_536, 65_537]
+    } else {
+        vec![65_535, 65_536, 65_537, 70_000, 131_072, 196_608]
+    }
+}
+
+/// one unit repeated 2^16 times and more on one statement, then the observation that a wrapped
+/// counter would spoil: executions after a delivery of long data; chunks before one execution
+pub fn wraps_long_data(quick: bool) -> Vec<(String, Vec<Action>)> {
+    let mut v = Vec::new();
+    for e in wrap_counts(quick) {
+        let mut h = vec![Action::Prepare { id: 1, n: 2, ok: true }, Action::Prepare { id: 2, n: 2, ok: true }];
+        h.push(Action::Long { id: 1, param: 0, chunk: 1 });
+        h.push(ex(1, Bind::C));
+        for _ in 0..e {
+            h.push(ex(1, Bind::Reuse));
+        }
+        h.push(ex(2, Bind::C));
+        h.push(Action::Long { id: 1, param: 1, chunk: 2 });
+        h.push(ex(1, Bind::Reuse));
+        h.push(ex(1, Bind::C));
+        v.push((format!("long data delivered once, then {} inline executions of the same statement, then long data again", e), h));
+    }
+    for n in wrap_counts(quick) {
+        for np in [1usize, 2] {
+            let mut h = vec![Action::Prepare { id: 1, n: np, ok: true }];
+            for i in 0..n {
+                h.push(Action::Long { id: 1, param: (i % np) as u16, chunk: if i % 3 == 0 { 0 } else { 2 } });
+            }
+            h.push(ex(1, Bind::C));
+            h.push(ex(1, Bind::Reuse));
+            h.push(Action::Long { id: 1, param: 0, chunk: 1 });
+            h.push(ex(1, Bind::Reuse));
+            v.push((format!("{} empty and one-byte chunks for {} parameter(s) of one statement, then executions", n, np), h));
+        }
+    }
+    v
+}
+
+/// 2^16 executions (reuses with an occasional rebind) of one statement next to another, and
+/// 2^16 rebinds
+pub fn wraps_types(quick: bool) -> Vec<(String, Vec<Action>)> {
+    let binds = [Bind::A, Bind::B, Bind::C, Bind::D, Bind::E];
+    let mut v = Vec::new();
+    for e in wrap_counts(quick) {
+        let mut h = vec![Action::Prepare { id: 1, n: 2, ok: true }, Action::Prepare { id: 2, n: 2, ok: true }, ex(1, Bind::E), ex(2, Bind::B)];
+        for _ in 0..e {
+            h.push(ex(1, Bind::Reuse));
+        }
+        h.push(ex(2, Bind::Reuse));
+        h.push(ex(1, Bind::Reuse));
+        h.push(ex(1, Bind::D));
+        h.push(ex(1, Bind::Reuse));
+        v.push((format!("two statements bound differently, {} reuses of the first, then both reused and the first rebound", e), h));
+        let mut h = vec![Action::Prepare { id: 1, n: 2, ok: true }, Action::Prepare { id: 2, n: 2, ok: true }, ex(2, Bind::B)];
+        for i in 0..e {
+            h.push(ex(1, binds[i % 5]));
+        }
+        h.push(ex(1, Bind::Reuse));
+        h.push(ex(2, Bind::Reuse));
+        v.push((format!("{} rebinds of one statement cycling through five type tables, then reuses", e), h));
+    }
+    v
+}
+
+/// 2^16 statements opened / prepare-close cycles / closes of unknown ids, then the lifetime rules
+pub fn wraps_lifecycle(quick: bool) -> Vec<(String, Vec<Action>)> {
+    let mut v = Vec::new();
+    for k in wrap_counts(quick) {
+        let mut h = vec![Action::Prepare { id: 1, n: 1, ok: true }, ex(1, Bind::D)];
+        for i in 0..k {
+            let id = 2 + (i % 3) as u32;
+            h.push(Action::Prepare { id, n: 1 + i % 2, ok: true });
+            h.push(Action::Close { id });
+        }
+        h.push(ex(1, Bind::Reuse));
+        h.push(Action::Prepare { id: 2, n: 2, ok: true });
+        h.push(ex(2, Bind::A));
+        h.push(Action::Close { id: 2 });
+        h.push(ex(2, Bind::A)); // closed: must end the connection
+        v.push((format!("one long-lived statement next to {} prepare/close cycles", k), h));
+    }
+    let n = if quick { 65_537u32 } else { 70_000 };
+    let mut h: Vec<Action> = (1..=n).map(|id| Action::Prepare { id, n: 1, ok: true }).collect();
+    h.push(ex(1, Bind::A));
+    h.push(ex(n, Bind::C));
+    h.push(ex(65_536, Bind::B));
+    h.push(Action::Close { id: 1 });
+    h.push(ex(65_537, Bind::A));
+    h.push(ex(1, Bind::A)); // closed: must end the connection
+    v.push((format!("{} open statements, then the first, the last, number 65536 and 65537, and a closed one", n), h));
+    v
+}
+
 /// long data followed by hundreds of inline executions
 pub fn scale_long_data() -> Vec<(String, Vec<Action>)> {
     let mut v = Vec::new();
